@@ -4,7 +4,7 @@
 cd /verif
 OUT=refactorings/RESULTS.tsv
 : > $OUT.tmp
-run() { p=$1; shift; for c in "$@"; do r=$(tools/try_patch.sh /verif/refactorings/$p/patch.diff $c 2>&1 | tail -1); rc=$(echo "$r" | sed -n 's/.*exit \([0-9]*\).*/\1/p'); printf '%s\t%s\t%s\t%s\n' "$p" "$c" "$rc" "$(echo "$r" | cut -c1-300 | sed 's/.*exit [0-9]* *//')" >> $OUT.tmp; done; }
+run() { p=$1; shift; for c in "$@"; do r=$(tools/try_patch.sh /verif/refactorings/$p/patch.diff $c 2>&1 | grep -a -m1 ' vs .*: '); rc=$(echo "$r" | sed -n 's/.*exit \([0-9]*\).*/\1/p'); printf '%s\t%s\t%s\t%s\n' "$p" "$c" "$rc" "$(echo "$r" | cut -c1-300 | sed 's/.*exit [0-9]* *//')" >> $OUT.tmp; done; }
 run r1-1 C08 C09 C18 C04 C19
 run r1-2 C03 C04 C06 C07 C17 C05
 run r1-3 C08 C09 C18 C04 C19
